@@ -14,13 +14,20 @@ SPEC = dict(
          "(nearest point, ray) queries each and the real OBB tree exported through getOBBTreeNode(); adjacency tables; "
          "OBJ / VTP / ascii+binary STL files (closed triangle meshes and open quad strips) written under /tmp/agent-C36 "
          "and read back by PolygonalMesh::loadFile; mode 'degenerate': coplanar / collinear / cospherical / coincident "
-         "clouds, obtuse and collinear triples, box meshes queried at centre / vertex / face points, region-6 witness; "
+         "clouds, obtuse and collinear triples, box meshes queried at centre / vertex / face points, region-6 witness, "
+         "fixed syntax variants of OBJ / VTP / ascii STL files; half of the meshes use smooth=true; "
          "distinct = distinct input records",
-    partial="the branch-and-bound search is proved over an abstract tree with admissible bounds and run on the exported "
-            "real tree; that the real boxes contain their triangles is checked per run (node_contains_triangles) and "
-            "lifted by box_contains_hull / obb_bound_admissible; OBB construction (eigen-decomposition + rotation "
-            "search), the n-point and 4-point bounding spheres, inside/outside parity, PolygonalMesh file parsing and "
-            "the 100*Eps angle tie-break of findNearestPoint are decided by implementation-side predicates only; "
-            "SmoothHeightMap's OBB tree and mesh/mesh collision are not exercised",
+    partial="(i) PROVED about the executed model: the branch-and-bound descent over the exported real tree returns the "
+            "triDist2-minimal face (mesh_nearest_eq_bruteforce) and the face with the smallest ray parameter "
+            "(mesh_ray_eq_bruteforce), given XT.Valid (every node box contains the vertices below it; checked per run by "
+            "node_contains_triangles) and, for rays, HitInFace; findNearestPointToFace returns a point of the face "
+            "(triNearest_params/point); OBB distance and ray-entry bounds are admissible; 2-/3-point spheres contain (by "
+            "construction of the radius; no theorem on the centre choice or minimality); topology predicate sound. "
+            "(ii) PREDICATE ONLY: that findNearestPointToFace is the closest point of the face and that a face's ray hit "
+            "lies in the face (independent routines over all faces), inside/outside parity, normal overloads and smooth "
+            "normals, OBB construction (eigen-decomposition + rotation search), n-point and 4-point spheres, PolygonalMesh "
+            "file parsing (OBJ/VTP/STL incl. syntax variants), the 100*Eps angle tie-break of findNearestPoint. "
+            "(iii) NOT COVERED: SmoothHeightMap's OBB tree, mesh/mesh collision, Geo::OBBTree, float instantiations, "
+            "binary/appended VTP (rejected by the loader); simbody has no mesh writer, so only loading is checked",
     assumptions=["libm sqrt is trusted (SqrtSpec)", "rotations enter through IsRot"],
 )
